@@ -27,6 +27,8 @@ static CREATED: AtomicU64 = AtomicU64::new(0);
 static WEAKED: AtomicU64 = AtomicU64::new(0);
 /// user tag carried by every link of the structure (0 = none)
 static LINK_TAG: AtomicU64 = AtomicU64::new(0);
+/// pop_edges moves its edges out with swap(null) instead of take()
+static POP_VIA_SWAP: AtomicU64 = AtomicU64::new(0);
 
 /// `W` words of inline payload (0, or 128 = 1 KiB: the payload must not end up on the stack of
 /// the recursive destructor)
@@ -39,8 +41,14 @@ pub struct CNode<const W: usize> {
 
 unsafe impl<const W: usize> RcObject for CNode<W> {
     fn pop_edges(&mut self, out: &mut Vec<Rc<Self>>) {
-        out.push(self.next[0].take());
-        out.push(self.next[1].take());
+        if POP_VIA_SWAP.load(Relaxed) != 0 {
+            // the other way of moving an edge out: what comes back is the link as it was written
+            out.push(self.next[0].swap(Rc::null(), SeqCst));
+            out.push(self.next[1].swap(Rc::null(), SeqCst));
+        } else {
+            out.push(self.next[0].take());
+            out.push(self.next[1].take());
+        }
     }
 }
 
@@ -249,6 +257,7 @@ pub fn gen(prop: &str, seed: u64, stack: bool) -> RunDesc {
         .set("payload_words", payload_words)
         .set("drop_in_tls", drop_in_tls)
         .set("link_tag", link_tag)
+        .set("pop_via_swap", Rng::new(seed ^ 0x5A9).chance(0.25))
         .set("revive_head", if SHAPES[shape as usize] == "right-spine" && !stack && Rng::new(seed ^ 0x5E).chance(0.6) { 0 } else { revive_head })
         .set("shared_sentinel", SHAPES[shape as usize] == "right-spine" && !stack && Rng::new(seed ^ 0x5E).chance(0.6))
         .set("noise_only_advances", advancers_only)
@@ -527,6 +536,7 @@ fn destroyer<const W: usize>(desc: &RunDesc, out: &mut Vec<(String, String)>, fa
     WEAKED.store(p.getu("weaked_nodes"), Relaxed);
     DROP_IN_TLS.store(p.getu("drop_in_tls"), Relaxed);
     LINK_TAG.store(p.getu("link_tag"), Relaxed);
+    POP_VIA_SWAP.store(p.getb("pop_via_swap") as u64, Relaxed);
     REVIVE.store(p.getu("revive_head"), Relaxed);
     let stack_check = p.getb("stack_check");
     // With other threads around, a cascade may run on (and re-defer into the local bag of) a
